@@ -32,6 +32,7 @@ type drvRequest struct {
 	UDPSize      int               `json:"udpsize,omitempty"`
 	OtherUDPSize int               `json:"other_udpsize,omitempty"`
 	Churn        int               `json:"churn,omitempty"`
+	LazyDrain    bool              `json:"lazy_drain,omitempty"`
 	Filter       []uint32          `json:"filter,omitempty"`
 	ResetCache   bool              `json:"reset_cache,omitempty"`
 	Mirror       bool              `json:"mirror,omitempty"`
